@@ -572,8 +572,11 @@ def run_check(prop: str, tier: str, seed: int, replay: str | None) -> int:
         "violations": len(violations),
     }
     if not replay:
-        (VERIF / "evidence").mkdir(exist_ok=True)
-        (VERIF / "evidence" / f"{prop}.json").write_text(json.dumps(evidence, indent=1, default=str))
+        # evidence describes runs against /repo itself; runs against a scratch copy (HUGR_REPO, used
+        # for seeded changes) are kept apart and never committed
+        edir = VERIF / "evidence" if REPO == Path("/repo") else VERIF / ".work" / "evidence-scratch"
+        edir.mkdir(parents=True, exist_ok=True)
+        (edir / f"{prop}.json").write_text(json.dumps(evidence, indent=1, default=str))
     for l in known_lines:
         print(l)
     for l in violations:
